@@ -34,7 +34,8 @@ def design(ctx):
         if thorough:
             vlib.tlc_design(ctx, M, "MC_Store_NoLockRad.cfg", timeout=1800, expect_violation="RetainedWithinRadius")
     if p == "C17":
-        r = vlib.tlc_design(ctx, M, "MC_Store_SizeKey.cfg", timeout=600, expect_violation="Action property OpenRadiusRule is violated.")
+        vlib.tlc_design(ctx, M, "MC_Store_SizeKey.cfg", timeout=600, expect_violation="Action property OpenRadiusRule is violated.")
+        vlib.tlc_design(ctx, M, "MC_Store_SplitBatch.cfg", timeout=600, expect_violation="CrashConsistent")
 
 
 def gated_cases(ctx):
